@@ -205,6 +205,16 @@ def shiftUntyped (op : BinOp) (x y : Lit) : Option Lit :=
       | some m => (cShift m op n.toNat).map fun z => ⟨xkind, .int z⟩
     else none   -- c.Errorf("invalid shift")
 
+/-- result kind in `Comp.BinaryExprUntyped`: `MakeKind(zobj.Kind())`, but
+    "untyped.Rune has precedence over untyped.Int" -/
+def resultKind (xk yk : UKind) (z : CVal) : UKind :=
+  match z with
+  | .int _ =>
+    if isIntKind xk ∧ xk ≠ .int then xk
+    else if isIntKind yk ∧ yk ≠ .int then yk
+    else makeKind z
+  | _ => makeKind z
+
 /-- `Comp.BinaryExprUntyped` -/
 def binaryExprUntyped (op : BinOp) (x y : Lit) : Option Lit :=
   match op with
@@ -223,19 +233,8 @@ def binaryExprUntyped (op : BinOp) (x y : Lit) : Option Lit :=
       let xint := isIntKind x.kind
       let yint := isIntKind y.kind
       let tok := if op = .quo ∧ xint ∧ yint then Tok.quoAssign else Tok.op op
-      match cBinaryOp x.val tok y.val with
-      | none => none
-      | some z =>
-        let zkind := makeKind z
-        -- untyped.Rune has precedence over untyped.Int
-        let zkind :=
-          match z with
-          | .int _ =>
-            if xint ∧ x.kind ≠ .int then x.kind
-            else if yint ∧ y.kind ≠ .int then y.kind
-            else zkind
-          | _ => zkind
-        some ⟨zkind, z⟩
+      -- zkind == untyped.None (Unknown result) and go/constant panics are `none`
+      (cBinaryOp x.val tok y.val).map fun z => ⟨resultKind x.kind y.kind z, z⟩
 
 /-- `Comp.UnaryExprUntyped` -/
 def unaryExprUntyped (op : UnOp) (x : Lit) : Option Lit :=
